@@ -409,7 +409,24 @@ def run_gdb_late(ctx, rng, cands):
                  {str(k2): v for k2, v in names.items()}, names[victim])
 
 
-def late_session(ctx, rng, entries, names, victim_name):
+def run_gdb_one_after_the_other(ctx, rng, cands):
+    """a program run again and again under one gdb, the clients of a compositor coming and going: connections one after the
+    other, each destroyed after its last message.  Breakpoint `*`, the first connection selected at its first halt: the selection
+    stays what the user made it, a connection that appears later is another connection and its messages do not halt"""
+    k = rng.randint(2, 3)
+    st = streams.build(rng, cands, k=k, n_each=(6, 25), tagged=True, interleave='first')
+    names = {}
+    for e in st['entries']:
+        if e['ci'] not in names:
+            names[e['ci']] = streams.conn_name(len(names))
+    first = st['entries'][0]['ci']
+    late_session(ctx, rng, [{'ci': e['ci'], 'side': st['sides'][e['ci']], 'rec': e['rec'], 'line': e['line']} for e in st['entries']],
+                 {str(k2): v for k2, v in names.items()}, names[first], destroy_finished=True)
+    ctx.count('sessions_with_connections_one_after_the_other')
+
+
+def late_session(ctx, rng, entries, names, victim_name, destroy_finished=False):
+    label = '[connections one after the other]' if destroy_finished else '[late attach]'
     try:
         gs = gdbsim.GdbSession(stop_text=None)
     except RuntimeError:
@@ -419,7 +436,8 @@ def late_session(ctx, rng, entries, names, victim_name):
     gs.sim.command('wl', 'breakpoint *')
     selection = None
     script = []
-    case_base = {'late_lines': [e['line'] for e in entries], 'victim': victim_name, 'late_entries': entries, 'late_names': names}
+    case_base = {'late_lines': [e['line'] for e in entries], 'victim': victim_name, 'late_entries': entries, 'late_names': names, 'late_destroy': destroy_finished}
+    last_of = {e['ci']: i for i, e in enumerate(entries)}
     for idx, e in enumerate(entries):
         name = names[str(e['ci'])]
         n0, x0 = gs.mark()
@@ -428,11 +446,11 @@ def late_session(ctx, rng, entries, names, victim_name):
         ctx.ev()
         case = dict(case_base, script=script[-40:], message_index=idx)
         if exc is not None:
-            ctx.violation('stop-exception', '[late attach] line %d: %s: %r escaped stop()' % (idx, type(exc).__name__, exc), case)
+            ctx.violation('stop-exception', label + ' line %d: %s: %r escaped stop()' % (idx, type(exc).__name__, exc), case)
             return
         want = selection is None or selection == name
         if stop != want:
-            ctx.violation('no-halt-matching' if want else 'halt-not-matching', '[late attach] breakpoint *, connection %s selected: line %d %r of connection %s %s' % (
+            ctx.violation('no-halt-matching' if want else 'halt-not-matching', label + ' breakpoint *, connection %s selected: line %d %r of connection %s %s' % (
                 selection or '(none)', idx, e['line'][:110], name, 'left the program running' if want else 'halted the program'), case)
             return
         if stop:
@@ -442,6 +460,14 @@ def late_session(ctx, rng, entries, names, victim_name):
                 script.append(['cmd', 'wl', 'connection ' + name])
             gs.sim.command('wl', rng.choice(['resume', 'r']))
             ctx.count('late_halts')
+        if destroy_finished and last_of[e['ci']] == idx:
+            dstop, dexc = gs.sim.deliver({'kind': 'destroy', 'connection': gs.conns[e['ci']]['addr'], 'thread': 1})
+            script.append(['destroy', e['ci']])
+            ctx.count('destroy_events_known')
+            if dexc is not None or dstop:
+                ctx.violation('halt-at-destroy', 'wl_connection_destroy of connection %s %s' % (name, 'raised %r' % (dexc,) if dexc is not None else 'halted the program'),
+                              dict(case_base, script=script[-40:]))
+                return
     ctx.count('late_gdb_sessions')
 
 
@@ -456,6 +482,8 @@ def run(ctx, spec):
         run_gdb_session(ctx, ctx.rng, cands)
         if i % 4 == 0:
             run_gdb_late(ctx, ctx.rng, cands)
+        if i % 4 == 2:
+            run_gdb_one_after_the_other(ctx, ctx.rng, cands)
         if ctx.out_of_time():
             break
     run_tui(ctx, ctx.rng, spec['tui'])
@@ -473,7 +501,7 @@ def replay(ctx, case):
     env.setup({'gdb_shim': True})
     if 'late_entries' in case:
         import random
-        late_session(ctx, random.Random(0), case['late_entries'], case['late_names'], case['victim'])
+        late_session(ctx, random.Random(0), case['late_entries'], case['late_names'], case['victim'], destroy_finished=case.get('late_destroy', False))
         return
     if 'tui_commands' in case:
         from ..session import Session
